@@ -659,9 +659,37 @@ func c14LongTimeout(c *vk.Ctx, r *rand.Rand) bool {
 		}
 		items = append(items, item{sock, sends, scen})
 	}
+	// one association's socket refuses the deadline call the shutdown makes (injected, once): the
+	// shutdown still expires all the OTHER associations promptly
+	var faulty *NatSock
+	if len(items) >= 3 {
+		faulty = items[r.Intn(len(items))].sock
+		if faulty != nil {
+			faulty.FailNextImmediateDeadline()
+		}
+	}
 	shutdownAt := time.Now()
 	w.rig.PC.Close()
 	time.Sleep(100 * time.Millisecond)
+	if faulty != nil {
+		for _, it := range items {
+			if it.sock == nil || it.sock == faulty {
+				continue
+			}
+			for dl := time.Now().Add(udpB); time.Now().Before(dl); time.Sleep(2 * time.Millisecond) {
+				if _, n := it.sock.Closed(); n > 0 {
+					break
+				}
+			}
+			if _, n := it.sock.Closed(); n != 1 {
+				c.Violation("C14/outbound-socket-not-closed-at-shutdown", map[string]any{"socket": it.sock.Local, "closes": n, "associations": len(items), "history": "the deadline call failed on ANOTHER association's socket during the shutdown", "nat_timeout": natTimeout.String()})
+				faulty.PacketConn.SetReadDeadline(time.Now())
+				return false
+			}
+		}
+		faulty.PacketConn.SetReadDeadline(time.Now()) // clean up: let the faulty one expire too
+		c.Count("shutdowns_with_a_failing_deadline_call", 1)
+	}
 	for _, it := range items {
 		c.Eval("long-timeout|" + it.scen)
 		if it.sock == nil || !checkAssocLog(c, "long-timeout/"+it.scen, it.sock, it.sends, natTimeout, shutdownAt) {
@@ -750,7 +778,7 @@ func init() {
 		Parallel:    func(t string) int { return 4 },
 		Timeout:     func(t string) time.Duration { return 25 * time.Minute },
 		Run: func(c *vk.Ctx) {
-			for _, s := range []string{"deadlines_checked", "expired_reclaimed_exactly_once", "fast_close_reclaimed", "dns_associations_kept", "shutdown_with_live_associations", "long_timeout_sequences", "leak_audits_passed", "process_configured_timeout_honoured_services", "process_configured_timeout_honoured_legacy-keys", "chatty_target_scenarios", "reaping_window_scenarios", "associations_opened_by_an_empty_datagram"} {
+			for _, s := range []string{"deadlines_checked", "expired_reclaimed_exactly_once", "fast_close_reclaimed", "dns_associations_kept", "shutdown_with_live_associations", "long_timeout_sequences", "leak_audits_passed", "process_configured_timeout_honoured_services", "process_configured_timeout_honoured_legacy-keys", "chatty_target_scenarios", "reaping_window_scenarios", "associations_opened_by_an_empty_datagram", "shutdowns_with_a_failing_deadline_call"} {
 				c.Require(s)
 			}
 			c14Run(c)
